@@ -400,3 +400,5 @@ def run(report, repo):
   report.guard(c06.r5b_keep_terminal, report, repo, rule='C12-R8')
   from sa.rules import extra4  # pylint: disable=g-import-not-at-top
   report.guard(extra4.joins_are_bounded, report, repo, 'C12-R9')
+  from sa.rules import extra5 as _e5b  # pylint: disable=g-import-not-at-top
+  report.guard(_e5b.monitor_binds_measurement_once, report, repo, 'C12-R10')
